@@ -74,3 +74,42 @@ Definition widened2 (kh kw rh rw : nat) (w : list (list Z)) (fill : Z) : list (l
                                 then nth (w' / rw)%nat (nth (h' / rh)%nat w []) 0 else fill)
                      (seq 0 (widened_len kw rw)))
       (seq 0 (widened_len kh rh)).
+
+(* ---------- split_pad_to_sub_pad: one PAD as two ---------- *)
+(* a tensor of any rank is a function of its index list; values are taken minus the zero point, so padding is 0.
+   box lo n i: on every axis lo <= i < lo + n *)
+Fixpoint in_box (lo n i : list Z) : bool :=
+  match lo, n, i with
+  | l :: lo', m :: n', j :: i' => (l <=? j) && (j <? l + m) && in_box lo' n' i'
+  | [], [], [] => true
+  | _, _, _ => false
+  end.
+Fixpoint zsub (a b : list Z) : list Z :=
+  match a, b with x :: a', y :: b' => (x - y) :: zsub a' b' | _, _ => [] end.
+Fixpoint zadd (a b : list Z) : list Z :=
+  match a, b with x :: a', y :: b' => (x + y) :: zadd a' b' | _, _ => [] end.
+(* PAD with `lo` elements in front on every axis of a tensor of extents n (what comes behind follows from the
+   output shape and does not enter the value) *)
+Definition pad_nd (lo n : list Z) (x : list Z -> Z) (i : list Z) : Z :=
+  if in_box lo n i then x (zsub i lo) else 0.
+
+(* the split: rows of the paddings matrix are (front, back) per axis; the operation keeps row `axis` (0 = batch when it
+   pads the batch, else the last = channels), a new PAD in front of it gets every other row.
+   Result: 0 = not split; otherwise 1, the axis, the kept matrix and the moved matrix *)
+Definition row_sum (r : Z * Z) : Z := fst r + snd r.
+Definition nonzero_rows (m : list (Z * Z)) : bool := negb (forallb (fun r => row_sum r =? 0) m).
+Definition keep_row (axis : nat) (m : list (Z * Z)) : list (Z * Z) :=
+  map (fun p => if Nat.eqb (fst p) axis then snd p else (0, 0)) (combine (seq 0 (length m)) m).
+Definition drop_row (axis : nat) (m : list (Z * Z)) : list (Z * Z) :=
+  map (fun p => if Nat.eqb (fst p) axis then (0, 0) else snd p) (combine (seq 0 (length m)) m).
+Definition pad_split (m : list (Z * Z)) : option (nat * list (Z * Z) * list (Z * Z)) :=
+  match m with
+  | [b; h; w; c] =>
+      let has_b := negb (row_sum b =? 0) in
+      let has_c := negb (row_sum c =? 0) in
+      let has_s := nonzero_rows [h; w] in
+      let kinds := (if has_b then 1 else 0) + (if has_c then 1 else 0) + (if has_s then 1 else 0) in
+      if negb (has_b || has_c) || (kinds <? 2) then None
+      else let axis := if has_b then 0%nat else 3%nat in Some (axis, keep_row axis m, drop_row axis m)
+  | _ => None
+  end.
